@@ -808,8 +808,52 @@ namespace sim
         const double split = r.real(80e3, 200e3);
         fk.push_back({"min depth", r.chance(0.7) ? depth_surface(r, poly, 0, split * 0.9, a, b) : num(r.real(0, split * 0.5))});
         fk.push_back({"max depth", r.chance(0.8) ? depth_surface(r, poly, split, split + 300e3, c, d) : num(split + r.real(10e3, 300e3))});
-        fk.push_back({"temperature models", list({obj({{"model", str("uniform")}, {"temperature", num(r.real(300, 1500))}})})});
-        fk.push_back({"composition models", list({obj({{"model", str("uniform")}, {"compositions", inums({static_cast<unsigned>(i)})}})})});
+        // models with their own depth surfaces (pre-tested against the smallest/largest surface value) or without
+        auto model_range = [&](KV &mk)
+        {
+          if (!r.chance(0.6))
+            return;
+          double e, g2;
+          const double msplit = r.real(60e3, 250e3);
+          mk.push_back({"min depth", r.chance(0.6) ? depth_surface(r, poly, 0, msplit * 0.9, e, g2) : num(r.real(0, msplit * 0.5))});
+          mk.push_back({"max depth", r.chance(0.7) ? depth_surface(r, poly, msplit, msplit + 250e3, e, g2) : num(msplit + r.real(10e3, 250e3))});
+        };
+        std::vector<std::string> tm, cm;
+        const int ntm = static_cast<int>(r.range(1, 2));
+        for (int k = 0; k < ntm; ++k)
+          {
+            KV mk;
+            const bool linear = r.chance(0.4) && family != "oceanic plate";
+            mk.push_back({"model", str(linear ? "linear" : "uniform")});
+            if (linear)
+              {
+                mk.push_back({"top temperature", num(r.real(280, 400))});
+                mk.push_back({"bottom temperature", num(r.real(1000, 1700))});
+                double e, g2;
+                mk.push_back({"max depth", r.chance(0.7) ? depth_surface(r, poly, 100e3, 400e3, e, g2) : num(r.real(100e3, 400e3))});
+              }
+            else
+              {
+                mk.push_back({"temperature", num(r.real(300, 1500))});
+                model_range(mk);
+              }
+            tm.push_back(obj(mk));
+          }
+        KV ck;
+        ck.push_back({"model", str("uniform")});
+        ck.push_back({"compositions", inums({static_cast<unsigned>(i)})});
+        model_range(ck);
+        cm.push_back(obj(ck));
+        fk.push_back({"temperature models", list(tm)});
+        fk.push_back({"composition models", list(cm)});
+        if (r.chance(0.4))
+          {
+            KV vk;
+            vk.push_back({"model", str("uniform raw")});
+            vk.push_back({"velocity", nums({r.real(-0.1, 0.1), r.real(-0.1, 0.1), r.real(-0.1, 0.1)})});
+            model_range(vk);
+            fk.push_back({"velocity models", list({obj(vk)})});
+          }
         feats.push_back(obj(fk));
       }
     kv.push_back({"features", list(feats)});
